@@ -8,6 +8,7 @@ import hashlib
 import json
 import os
 import random
+import signal
 import re
 import sys
 
@@ -111,6 +112,20 @@ class Local(object):
         raise AssertionError(name)
 
 
+# requests that raise something that is no Exception, or whose message cannot be built (record class `evalbase`)
+BASEEXC = ['raise SystemExit(%d)', 'import sys\nsys.exit(0)', 'raise KeyboardInterrupt("kbd %d")', 'raise GeneratorExit("gen")',
+           'class E(Exception):\n    def __str__(self):\n        raise ValueError("str fails")\nraise E()',
+           'class B(BaseException):\n    pass\nraise B("base %d")']
+
+
+class _Timeout(BaseException):
+    pass
+
+
+def _alarm(signum, frame):
+    raise _Timeout()
+
+
 def make_request(cls, k, rng, projdir, corpus, big):
     """-> (method name, args, kwargs, has_local, nonce)"""
     nonce = 'n%d' % k
@@ -154,7 +169,9 @@ def make_request(cls, k, rng, projdir, corpus, big):
                         'raise KeyError(%d)' % k, 'return [].pop()', 'raise Exception("obj at 0x7f00dead%d")' % k])
         return 'eval', [e], {}, True
     if cls == 'unknown':
-        return rng.choice(['frobnicate', 'get_docstring', 'get_scope', 'Lint', 'assist_%d' % k, '']), [k], {}, False
+        # (names of attributes the server object happens to have are no methods of the protocol either)
+        return rng.choice(['frobnicate', 'get_docstring', 'get_scope', 'Lint', 'assist_%d' % k, '', 'run', 'process', '__init__', '__class__',
+                           'project', 'conn', '__repr__', '__setattr__', '__dir__']), rng.choice([[k], [], ['project', None]]), {}, False
     if cls == 'badargs':
         fname, src = rng.choice(corpus)
         return rng.choice([('lint', [], {}, False), ('assist', [src], {}, False), ('lint', [src, fname, False, 'extra'], {}, False),
@@ -166,7 +183,8 @@ def make_request(cls, k, rng, projdir, corpus, big):
                         # serialisation failing with something that is not a msgpack exception
                         'return "caf\\udce9 %d"' % k, 'x = []\nfor i in range(5000):\n    x = [x]\nreturn x',
                         'return {"k": ["\\ud800"]}', 'class S(str):\n    def encode(self, *a):\n        raise RuntimeError("enc %d")\nreturn S("x")' % k,
-                        'return range(%d)' % k, 'return Exception("as a value")', 'return memoryview(b"x")'])
+                        'return range(%d)' % k, 'return Exception("as a value")', 'return memoryview(b"x")'
+                        ] + [x % k if '%d' in x else x for x in BASEEXC])
         return 'eval', [e], {}, False
     raise AssertionError(cls)
 
@@ -228,8 +246,21 @@ def main_on(data, projdir):
                     # well-formed requests go through the public client method (what an editor plugin calls), the malformed
                     # ones (unknown method, wrong arguments) can only be sent through the transport
                     meth = getattr(env, name, None) if has_local and name in ('lint', 'assist', 'location', 'configure', 'eval') else None
-                    r = meth(*args, **kwargs) if meth is not None else env._call(name, *args, **kwargs)
+                    signal.signal(signal.SIGALRM, _alarm)
+                    signal.alarm(90)
+                    try:
+                        r = meth(*args, **kwargs) if meth is not None else env._call(name, *args, **kwargs)
+                    finally:
+                        signal.alarm(0)
                     rem['val'] = digest(norm_reply(name, r))
+                except _Timeout:
+                    # no reply at all: the server is of no use any more
+                    rem = {'kind': 'exc', 'val': '', 'msg': ''}
+                    try:
+                        env.proc.kill()
+                        env.proc.wait()
+                    except Exception:  # noqa
+                        pass
                 except Exception as e:  # noqa
                     rem = {'kind': 'exc', 'val': '', 'msg': mask(str(e))}
                 # in-process
@@ -256,6 +287,8 @@ def main_on(data, projdir):
                 rcls = cls
                 if cls in ('api', 'raises'):
                     rcls = 'api'
+                if cls == 'unser' and any(args[0].split('(')[0] == b.split('(')[0] for b in BASEEXC):
+                    rcls = 'evalbase'
                 records.append({'k': k, 'cls': rcls, 'remote': rem, 'local': loc, 'alive': alive, 'echo': echo, 'method': name})
                 if not alive:
                     break
